@@ -166,9 +166,9 @@ type vC07Env struct {
 // drain replays new journal entries into the mirror and judges every delete.
 func (e *vC07Env) drain() {
 	c := e.c
-	es := e.j.Entries()
+	es := e.j.EntriesFrom(e.seen)
 	inSweep := false
-	for _, en := range es[e.seen:] {
+	for _, en := range es {
 		vt, _ := strconv.ParseInt(en.Role, 10, 64)
 		switch en.Op {
 		case vjds.OpQuery:
@@ -220,7 +220,7 @@ func (e *vC07Env) drain() {
 			delete(e.mirror, en.Key)
 		}
 	}
-	e.seen = len(es)
+	e.seen += len(es)
 }
 
 func (e *vC07Env) hook(en *vjds.Entry) error {
@@ -247,7 +247,7 @@ func vC07ModelBody(c *vh.Case) {
 	if gcEvery > 0 && gcEvery < validity/20 {
 		gcEvery = validity / 20
 	}
-	heavy := r.Intn(40) == 0
+	heavy := r.Intn(80) == 0
 	cacheN := []int{0, 1, 2, 2, 2, 3, 5}[r.Intn(7)]
 	nk := 1 + r.Intn(12)
 	if r.Intn(5) == 0 {
@@ -387,7 +387,7 @@ func vC07ModelBody(c *vh.Case) {
 			panic(err)
 		}
 		query(pm2, "reopened-after-write:", k)
-		for i := 0; i < 2 && len(keys) > 1; i++ {
+		for i := 0; i < 2 && len(keys) > 1 && !heavy; i++ {
 			query(pm2, "reopened-after-write:", keys[r.Intn(len(keys))])
 		}
 		c.Clause("reopen-after-write")
@@ -452,7 +452,7 @@ func vC07ModelBody(c *vh.Case) {
 			time.Sleep(gcEvery + time.Nanosecond)
 			synctest.Wait()
 		}
-		late := e.j.Entries()[jl:]
+		late := e.j.EntriesFrom(jl)
 		if final {
 			late = vjds.AfterCloseAccesses(e.j.Entries())
 		}
@@ -565,13 +565,11 @@ func vC07ModelBody(c *vh.Case) {
 }
 
 func TestVerif_C07_model(t *testing.T) {
-	vh.Run(t, vh.Spec{Prop: "C07", Unit: "model", Quick: 2500, Thorough: 120000, CostMs: 6,
-		Rule: "synctest bubble per case; PRNG history of 20-60 operations (add / query / advance aimed at validity +-1ns of some addition / wait for a sweep / evict by querying more keys than cache entries / clean restart) over 1-60 keys (1 in 40 cases: 257-600 keys against the default 256-entry cache; some keys extend others), 1-30 providers incl. the node itself, validity 10m-48h, cleanup interval 0 / validity/5 .. 1.3x, cache of 1-5 entries or default; optional pre-filed malformed + valid entries; 1 in 8 cases inject datastore write failures (failed add = provider may or may not be served); lock-step model key->provider->vt of last acknowledged add; after every acknowledged add a second manager is opened on a copy of the datastore replayed from the vjds journal and queried; every restart and the end check the Close fence; non-trivial = an expired provider was withheld, an answer came from the cache and an answer was re-loaded from the datastore for a key cached earlier; distinct by hash of the answer sequence",
+	vh.Run(t, vh.Spec{Prop: "C07", Unit: "model", Quick: 4000, Thorough: 150000, CostMs: 8,
+		Rule:    "synctest bubble per case; PRNG history of 20-60 operations (add / query / advance aimed at validity +-1ns of some addition / wait for a sweep / evict by querying more keys than cache entries / clean restart) over 1-60 keys (1 in 80 cases: 257-600 keys against the default 256-entry cache; some keys extend others), 1-30 providers incl. the node itself, validity 10m-48h, cleanup interval 0 / validity/5 .. 1.3x, cache of 1-5 entries or default; optional pre-filed malformed + valid entries; 1 in 8 cases inject datastore write failures (failed add = provider may or may not be served); lock-step model key->provider->vt of last acknowledged add; after every acknowledged add a second manager is opened on a copy of the datastore replayed from the vjds journal and queried; every restart and the end check the Close fence; non-trivial = an expired provider was withheld, an answer came from the cache and an answer was re-loaded from the datastore for a key cached earlier; distinct by hash of the answer sequence",
 		Clauses: []string{"valid-served", "expired-not-served", "no-duplicates", "no-stranger", "ack-durable", "reopen-after-write", "delete-only-expired", "closed-reports-closed", "closed-no-access"}},
 		func(c *vh.Case) {
-			t0 := time.Now()
 			c.Bubble(t, 24*365*30*time.Hour, "hang", func(t *testing.T) { vC07ModelBody(c) })
-			c.Set("PROBE_wall_us", time.Since(t0).Microseconds())
 		})
 }
 
@@ -589,8 +587,8 @@ type vC07Op struct {
 }
 
 func TestVerifRace_C07_concurrent(t *testing.T) {
-	vh.Run(t, vh.Spec{Prop: "C07", Unit: "concurrent", Quick: 150, Thorough: 6000, CostMs: 45,
-		Rule: "-race build, real goroutines: 3-4 adders (60-120 adds each) + 2-3 readers + the manager's own sweeper every 1-3 ms, cache of 1-3 entries, validity 1 h (nothing added during the run can expire), datastore pre-filled with 150-400 entries that expired 2 h ago (some for (key, provider) pairs that are re-added during the run, some never re-added, the rest filler that keeps the sweep busy); a vjds hook yields inside the sweeper's deletes; call/return stamped by one atomic counter, datastore accesses totally ordered by the journal; oracle: a provider whose addition was acknowledged before a query was invoked is in the answer unless the journal shows the documented exception (a sweeper delete of that entry after its last acknowledged put, issued by a sweep whose snapshot held the expired value); every sweeper/reader delete removes an entry that was expired in the snapshot it was taken from; never-re-added expired providers never returned; no duplicates; ErrClosed and a frozen journal after Close; non-trivial = >= 1 sweep overlapped adds and reads came both from cache and datastore; distinct by (adds, reads, sweeps, lost re-additions)",
+	vh.Run(t, vh.Spec{Prop: "C07", Unit: "concurrent", Quick: 240, Thorough: 8000, CostMs: 45,
+		Rule:    "-race build, real goroutines: 3-4 adders (60-120 adds each) + 2-3 readers + the manager's own sweeper every 1-3 ms, cache of 1-3 entries, validity 1 h (nothing added during the run can expire), datastore pre-filled with 150-400 entries that expired 2 h ago (some for (key, provider) pairs that are re-added during the run, some never re-added, the rest filler that keeps the sweep busy); a vjds hook yields inside the sweeper's deletes; call/return stamped by one atomic counter, datastore accesses totally ordered by the journal; oracle: a provider whose addition was acknowledged before a query was invoked is in the answer unless the journal shows the documented exception (a sweeper delete of that entry after its last acknowledged put, issued by a sweep whose snapshot held the expired value); every sweeper/reader delete removes an entry that was expired in the snapshot it was taken from; never-re-added expired providers never returned; no duplicates; ErrClosed and a frozen journal after Close; non-trivial = >= 1 sweep overlapped adds and reads came both from cache and datastore; distinct by (adds, reads, sweeps, lost re-additions)",
 		Clauses: []string{"valid-served", "no-duplicates", "no-stranger", "closed-reports-closed", "closed-no-access", "delete-only-expired"}},
 		func(c *vh.Case) {
 			r := c.R
